@@ -138,6 +138,50 @@ fn use_after_move_programs() -> Vec<(String, String, bool)> {
     out
 }
 
+/// Use after move through the constructs whose move / capture semantics have their own lowering: each offending
+/// program (`use-after-move:construct:*`) must be rejected, each control (the same without the second use, or a
+/// use the language allows) must compile.
+fn move_construct_programs() -> Vec<(String, String, bool)> {
+    const P: &str = "#[derive(Drop)]\nstruct W { a: Array<u8>, k: u8 }\nfn mk(a: u8) -> Array<u8> { array![a, 1] }\nfn eat(x: Array<u8>) -> u32 { x.len() }\nfn eat_w(w: W) -> u8 { w.k }\nfn wrap(x: Array<u8>) -> Option<Array<u8>> { Some(x) }\nfn two(ref a: Array<u8>, ref b: Array<u8>) { a.append(1); b.append(2); }\nfn val_and_ref(a: Array<u8>, ref b: Array<u8>) -> u32 { b.append(3); a.len() }\n";
+    // (name, body of `fn f(a: u8) -> u32`, legal)
+    let cases: Vec<(&str, &str, bool)> = vec![
+        ("closure-capture", "let x = mk(a); let c = || eat(x); let r = c(); r + eat(x)", false),
+        ("closure-capture:control", "let x = mk(a); let c = || eat(x); c()", true),
+        ("match-arm-binding", "let o = wrap(mk(a)); let r = match o { Some(y) => eat(y), None => 0 }; r + match o { Some(z) => eat(z), None => 1 }", false),
+        ("match-arm-binding:control", "let o = wrap(mk(a)); match o { Some(y) => eat(y), None => 0 }", true),
+        ("for-header", "let x = mk(a); let mut t = 0_u32; for v in x { t += v.into(); } t + eat(x)", false),
+        ("for-header:control", "let x = mk(a); let mut t = 0_u32; for v in x { t += v.into(); } t", true),
+        ("member-then-whole", "let s = W { a: mk(a), k: a }; let r = eat(s.a); r + eat_w(s).into()", false),
+        ("member-then-other-member:control", "let s = W { a: mk(a), k: a }; let r = eat(s.a); r + s.k.into()", true),
+        ("and-first-operand", "let x = mk(a); let c = eat(x) == 2 && a == 1; if c { eat(x) } else { 0 }", false),
+        ("and-second-operand", "let x = mk(a); let c = a == 1 && eat(x) == 2; if c { 1 } else { eat(x) }", false),
+        ("and-second-operand:control", "let x = mk(a); let c = a == 1 && eat(x) == 2; if c { 1 } else { 0 }", true),
+        ("let-else", "let x = mk(a); let Some(y) = wrap(x) else { return 0; }; eat(y) + eat(x)", false),
+        ("let-else:control", "let x = mk(a); let Some(y) = wrap(x) else { return 0; }; eat(y)", true),
+        ("ref-twice", "let mut x = mk(a); two(ref x, ref x); eat(x)", false),
+        ("ref-twice:control", "let mut x = mk(a); let mut y = mk(a); two(ref x, ref y); eat(x) + eat(y)", true),
+        ("value-and-ref", "let mut x = mk(a); val_and_ref(x, ref x)", false),
+        ("continue-path", "let x = mk(a); let mut i = 0_u8; let mut t = 0_u32; loop { if i == 2 { break; } i += 1; if i == 1 { t += eat(x); continue; } }; t", false),
+        ("continue-path:control", "let x = mk(a); let mut i = 0_u8; let mut t = 0_u32; loop { if i == 2 { break; } i += 1; if i == 1 { continue; } }; t + eat(x)", true),
+        ("tuple-pattern", "let x = mk(a); let (p, _q) = (x, 1_u8); eat(p) + eat(x)", false),
+        ("tuple-twice", "let x = mk(a); let t = (eat(x), eat(x)); let (p, q) = t; p + q", false),
+        ("array-literal-twice", "let x = mk(a); let v = array![x, x]; v.len()", false),
+        ("destructure-then-whole", "let w = W { a: mk(a), k: a }; let W { a: arr, k: _ } = w; eat(arr) + eat_w(w).into()", false),
+        ("snapshot-survives-move:control", "let x = mk(a); let s = @x; let r = eat(x); r + s.len()", true),
+        ("moved-in-inner-block", "let x = mk(a); let r = { let y = x; eat(y) }; r + eat(x)", false),
+        ("moved-by-method-chain", "let x = mk(a); let sp = x.span(); let r = eat(x); r + sp.len()", true),
+        ("option-unwrap-twice", "let o = wrap(mk(a)); eat(o.unwrap()) + eat(o.unwrap())", false),
+    ];
+    let mut out = vec![];
+    for (n, body, legal) in cases {
+        out.push((format!("{}:construct:{n}", if legal { "control-move" } else { "use-after-move" }), format!("{P}fn f(a: u8) -> u32 {{ {body} }}\n"), legal));
+    }
+    out.push(("use-after-move:construct:generic-without-copy".into(), "fn dup<T, +Drop<T>>(t: T) -> (T, T) { (t, t) }\nfn f(a: u8) -> u8 { let (p, _q) = dup(a); p }\n".into(), false));
+    out.push(("control-move:construct:generic-with-copy".into(), "fn dup<T, +Drop<T>, +Copy<T>>(t: T) -> (T, T) { (t, t) }\nfn f(a: u8) -> u8 { let (p, _q) = dup(a); p }\n".into(), true));
+    out.push(("use-after-move:construct:derive-copy-on-non-copy-member".into(), "#[derive(Copy, Drop)]\nstruct Bad { a: Array<u8> }\nfn f(a: u8) -> u32 { let b = Bad { a: array![a] }; let c = b; b.a.len() + c.a.len() }\n".into(), false));
+    out
+}
+
 /// Values of non-droppable, non-destructible types going out of scope.
 fn missing_drop_programs() -> Vec<(String, String, bool)> {
     let mut out = vec![];
@@ -222,6 +266,7 @@ fn run_all(ctx: &mut Ctx) {
     // (ii) ownership violations and their legal controls
     let mut own = use_after_move_programs();
     own.extend(missing_drop_programs());
+    own.extend(move_construct_programs());
     for chunk in own.chunks(6) {
         ctx.case(
             || json!({"space":"ownership","first":chunk[0].0}),
@@ -238,7 +283,7 @@ fn run_all(ctx: &mut Ctx) {
 pub static C08: CheckDef = CheckDef {
     id: "C08",
     level: "exploration",
-    rule: "(i) the C01 MiniCairo space (well-typed by construction; quick: every 5th program, thorough: all) and every corpus snippet whose diagnostics are error-free, under every front-end configuration (quick: 5 corner configurations; thorough: the full 44-point product of Optimizations/inlining/const-folding/match-threshold): diagnostics error-free => get_sierra_program ok, ProgramRegistry (Sierra validation) ok, calc_metadata ok, sierra-to-casm ok, no panic anywhere. (ii) ownership injection, every combination: 4 non-copy value kinds (Array, struct with array, Destruct-only struct, struct without Drop) x 4 first moves (call, let, through a tuple, in both branches) x 3 second uses (call again, let again, snapshot) x 4 positions (straight, in if, in else, in match arm), plus moves inside while/loop/for bodies; missing drop: 2 non-droppable kinds x 15 scenarios (never consumed, one branch only, overwritten, leaked by early return, unused parameter, shadowed, leaked on the panic path of an inline assert / of one / of two panicable calls, dropped in tuple, match arm) x 3 tails (ordinary value, always panics, never-typed call) plus an unbounded generic; each ill-formed program must get >=1 error diagnostic under the default configuration and with optimisations disabled; the legal control variants (single move, consumed on all paths, bounded generic) must compile - so rejection is caused by the injected violation. distinct_nontrivial = distinct programs.",
+    rule: "(i) the C01 MiniCairo space (well-typed by construction; quick: every 5th program, thorough: all) and every corpus snippet whose diagnostics are error-free, under every front-end configuration (quick: 5 corner configurations; thorough: the full 44-point product of Optimizations/inlining/const-folding/match-threshold): diagnostics error-free => get_sierra_program ok, ProgramRegistry (Sierra validation) ok, calc_metadata ok, sierra-to-casm ok, no panic anywhere. (ii) ownership injection, every combination: 4 non-copy value kinds (Array, struct with array, Destruct-only struct, struct without Drop) x 4 first moves (call, let, through a tuple, in both branches) x 3 second uses (call again, let again, snapshot) x 4 positions (straight, in if, in else, in match arm), plus moves inside while/loop/for bodies; plus 16 move constructs with their controls (closure capture, match-arm binding, `for` header, member then whole, first / second operand of `&&`, let-else, the same variable as two `ref` arguments or as value and `ref`, a `continue` path, tuple and struct patterns, array literal, inner block, generic without Copy, `#[derive(Copy)]` over a non-Copy member; a snapshot taken before the move stays usable); missing drop: 2 non-droppable kinds x 15 scenarios (never consumed, one branch only, overwritten, leaked by early return, unused parameter, shadowed, leaked on the panic path of an inline assert / of one / of two panicable calls, dropped in tuple, match arm) x 3 tails (ordinary value, always panics, never-typed call) plus an unbounded generic; each ill-formed program must get >=1 error diagnostic under the default configuration and with optimisations disabled; the legal control variants (single move, consumed on all paths, bounded generic) must compile - so rejection is caused by the injected violation. distinct_nontrivial = distinct programs.",
     assumptions: &["linear metadata solvers (the legacy solvers' panics are C14 findings)", "any error diagnostic counts: the property does not fix the wording"],
     run: run_all,
     stack_mb: 32,
